@@ -1008,7 +1008,9 @@ func (index *fkDeleteCascadeConstraint) ProcessAfterUpdate(*IndexingContext) {
 
 func (index *fkDeleteCascadeConstraint) ProcessBeforeDelete(ctx *IndexingContext) {
 	if !ctx.ErrHolder.HasError() {
-		filter, err := ast.Parse(index.symbol.GetStore(), fmt.Sprintf(`%v = "%v"`, index.symbol.GetName(), string(ctx.RowId)))
+		// build the filter AST directly; formatting the id into query text breaks for ids containing quotes, backslashes or control characters
+		filter, err := ast.NewInArrayExprNode(ast.NewUntypedSymbolNode(index.symbol.GetName()),
+			ast.NewStringArrayNode([]string{string(ctx.RowId)})).TypeTransformBool(index.symbol.GetStore())
 		if ctx.ErrHolder.SetError(err) {
 			return
 		}
